@@ -114,3 +114,85 @@ Section DecodeFacts.
       + rewrite app_length in Hc. simpl in Hc. replace (length done + S (length qs)) with (length done + 1 + length qs) by lia. rewrite Hc, <- app_assoc. reflexivity.
   Qed.
 End DecodeFacts.
+
+(* ---------------- attention mask helpers ---------------- *)
+Lemma attn_mask_entry {A B} (f : A -> B -> bool) q k i j da db : i < length q -> j < length k ->
+  nth j (nth i (attn_mask f q k) []) false = f (nth i q da) (nth j k db).
+Proof.
+  intros Hi Hj. unfold attn_mask.
+  rewrite (nth_indep _ [] ((fun a => map (f a) k) da)) by (now rewrite map_length).
+  rewrite (map_nth (fun a => map (f a) k)).
+  rewrite (nth_indep _ false (f (nth i q da) db)) by (now rewrite map_length).
+  apply (map_nth (f (nth i q da))).
+Qed.
+
+(* the causal mask lets query i see exactly the keys 0 .. i *)
+Theorem causal_mask_entry n i j : i < n -> j < n -> nth j (nth i (causal_mask n) []) false = Nat.leb j i.
+Proof.
+  intros Hi Hj. unfold causal_mask. rewrite (attn_mask_entry _ _ _ i j 0 0) by (now rewrite seq_length).
+  now rewrite !seq_nth by assumption.
+Qed.
+
+Lemma visible_firstn {K} : forall (ks : list K) s n m, length ks = n ->
+  visible (map (fun j => Nat.leb j m) (seq s n)) ks = firstn (S m - s) ks.
+Proof.
+  induction ks as [|k r IH]; intros s n m Hl; subst n; [destruct (S m - s); reflexivity|].
+  cbn [length seq map]. unfold visible in *. cbn [combine filter snd].
+  destruct (Nat.leb_spec s m) as [L|L].
+  - cbn [map fst]. replace (S m - s) with (S (S m - S s)) by lia. cbn [firstn]. f_equal. apply (IH (S s) (length r) m eq_refl).
+  - replace (S m - s) with 0 by lia. cbn [firstn].
+    rewrite (IH (S s) (length r) m eq_refl). replace (S m - S s) with 0 by lia. reflexivity.
+Qed.
+
+Theorem causal_row_sees_prefix {K} (ks : list K) i : i < length ks ->
+  visible (nth i (causal_mask (length ks)) []) ks = firstn (S i) ks.
+Proof.
+  intros Hi. unfold causal_mask, attn_mask.
+  rewrite (nth_indep _ [] ((fun a => map (fun j => Nat.leb j a) (seq 0 (length ks))) 0)) by (now rewrite map_length, seq_length).
+  rewrite (map_nth (fun a => map (fun j => Nat.leb j a) (seq 0 (length ks)))), seq_nth by exact Hi. cbn [Nat.add].
+  rewrite (visible_firstn ks 0 (length ks) i eq_refl). now rewrite Nat.sub_0_r.
+Qed.
+
+(* combine_masks is the pointwise conjunction of the masks that are given *)
+Lemma nth_nil_mask i j : nth j (nth i (@nil (list bool)) []) false = false.
+Proof. destruct i, j; reflexivity. Qed.
+Lemma nth_nil_bool j : nth j (@nil bool) false = false.
+Proof. destruct j; reflexivity. Qed.
+
+Lemma and_row_entry : forall ra rb j,
+  nth j (map (fun xy : bool * bool => fst xy && snd xy) (combine ra rb)) false = nth j ra false && nth j rb false.
+Proof.
+  induction ra as [|x ra IH]; intros rb j.
+  - cbn [combine map]. now rewrite !nth_nil_bool.
+  - destruct rb as [|y rb]; cbn [combine map]; [now rewrite !nth_nil_bool, andb_false_r|].
+    destruct j as [|j]; cbn [nth fst snd]; [reflexivity|apply IH].
+Qed.
+
+Lemma and_mask_entry : forall a b i j, nth j (nth i (and_mask a b) []) false = nth j (nth i a []) false && nth j (nth i b []) false.
+Proof.
+  unfold and_mask. induction a as [|ra a IH]; intros b i j.
+  - cbn [combine map]. now rewrite !nth_nil_mask.
+  - destruct b as [|rb b]; cbn [combine map]; [now rewrite !nth_nil_mask, andb_false_r|].
+    destruct i as [|i]; cbn [nth fst snd]; [apply and_row_entry|apply IH].
+Qed.
+
+Theorem combine_masks_entry ms m i j : combine_masks ms = Some m ->
+  nth j (nth i m []) false = forallb (fun x => match x with Some a => nth j (nth i a []) false | None => true end) ms.
+Proof.
+  unfold combine_masks.
+  assert (G : forall r acc, nth j (nth i (fold_left and_mask r acc) []) false =
+                            nth j (nth i acc []) false && forallb (fun a => nth j (nth i a []) false) r).
+  { induction r as [|b r IH]; intros acc; cbn [fold_left forallb]; [now rewrite andb_true_r|].
+    rewrite IH, and_mask_entry. now rewrite andb_assoc. }
+  assert (F : forall l, forallb (fun x => match x with Some a => nth j (nth i a []) false | None => true end) l =
+                        forallb (fun a => nth j (nth i a []) false) (flat_map (fun m0 => match m0 with Some x => [x] | None => [] end) l)).
+  { induction l as [|[a|] l IH]; cbn [forallb flat_map app]; [reflexivity|now rewrite IH|exact IH]. }
+  rewrite F. destruct (flat_map _ ms) as [|m0 r]; [discriminate|]. intros H. inversion H; subst. cbn [forallb]. apply G.
+Qed.
+Theorem combine_masks_none ms : combine_masks ms = None <-> forall x, In x ms -> x = None.
+Proof.
+  unfold combine_masks. induction ms as [|[a|] ms IH]; cbn [flat_map app].
+  - split; [intros _ x []|reflexivity].
+  - split; [discriminate|]. intros H. specialize (H (Some a) (or_introl eq_refl)). discriminate.
+  - rewrite IH. split; intros H x; [intros [<-|Hx]; [reflexivity|now apply H]|intros Hx; apply H; now right].
+Qed.
